@@ -184,6 +184,13 @@ impl CaseSpec {
     }
 }
 
+impl CaseSpec {
+    /// medium / large instance (12+ variables)
+    pub fn is_big(&self) -> bool {
+        match self.family { 'T' => (self.size & 0xF) >= 3, 'K' | 'P' => self.size >= 4, 'Q' => self.size >= 3, _ => false }
+    }
+}
+
 /// which corners the generator puts its mass on
 #[derive(Clone, Copy, Debug, Default)]
 pub struct Profile {
